@@ -190,6 +190,10 @@ func vhArbitraryGS(tag string, m int) *pokerface.GameState {
 
 // ---------- arbitrary table engine ----------
 
+// vhRule: rule of the worlds built by vhNewWorld (harnesses for the short-deck
+// rule set it before building).
+var vhRule = CompetitionRule_Default
+
 type vhWorld struct {
 	te  *tableEngine
 	rec *vhRec
@@ -230,7 +234,7 @@ func vhNewWorld(n, M, hand int, withGame bool) *vhWorld {
 	}
 	w.te = te
 	w.rec.install(te)
-	rule := CompetitionRule_Default
+	rule := vhRule
 	t := &Table{ID: "T1", UpdateSerial: verifrt.Int64("serial")}
 	t.Meta = TableMeta{CompetitionID: "C1", Rule: rule, Mode: vhPick("mode", []string{CompetitionMode_CT, CompetitionMode_MTT, CompetitionMode_Cash}),
 		MaxDuration: verifrt.IntRange("maxdur", 0, 10), TableMaxSeatCount: M, TableMinPlayerCount: verifrt.IntRange("minplayers", 2, 3),
@@ -268,7 +272,9 @@ func vhNewWorld(n, M, hand int, withGame bool) *vhWorld {
 	D := verifrt.IntRange("sm.D", -1, M-1)
 	SB := verifrt.IntRange("sm.SB", -1, M-1)
 	BB := verifrt.IntRange("sm.BB", -1, M-1)
-	if init {
+	if init && rule == CompetitionRule_ShortDeck {
+		verifrt.Assume(D >= 0 && SB == -1 && BB == -1)
+	} else if init {
 		verifrt.Assume(D >= 0 && SB >= 0 && BB >= 0 && SB != BB)
 	} else {
 		verifrt.Assume(D == -1 && SB == -1 && BB == -1)
